@@ -97,12 +97,12 @@ structure GenesisOK (gs : List Group) : Prop where
   idok : ∀ g ∈ gs, IdOK g.id
   bound : gs.length < lenBound
 
-theorem rep_save_first (m : List Bytes) (dummy g : Group) (hid : IdOK g.id) (hpre : g.pre = []) :
-    Rep [stamped 0 g] (save { disk := [], count := 0, last := dummy, mirror := m } g) := by
-  have hdisk : (save { disk := [], count := 0, last := dummy, mirror := m } g).disk =
-      applyWrites [] (saveWrites 0 g) := rfl
+theorem rep_save_first' (d : Store) (m : List Bytes) (dummy g : Group) (hid : IdOK g.id) (hpre : g.pre = [])
+    (hd : ∀ k, k ≠ g.id → sget d k = none) :
+    Rep [stamped 0 g] (save { disk := d, count := 0, last := dummy, mirror := m } g) := by
+  have hdisk : (save { disk := d, count := 0, last := dummy, mirror := m } g).disk =
+      applyWrites d (saveWrites 0 g) := rfl
   have hsid : (stamped 0 g).id = g.id := rfl
-  have hnil : ∀ k, sget ([] : Store) k = none := fun _ => rfl
   constructor
   · simp
   · simp [save, u64]
@@ -127,7 +127,7 @@ theorem rep_save_first (m : List Bytes) (dummy g : Group) (hid : IdOK g.id) (hpr
       have := hkey_inj h2 (by unfold u64; omega) e; omega
     have e3 : hkey i ≠ curKey := fun e => h3 (hkey_eq_curKey h2 e)
     have e4 : hkey i ≠ g.id := fun e => hid.ne_hkey i e.symm
-    simp [hkey_ne_cntKey, e2, e3, e4, hnil]
+    simp [hkey_ne_cntKey, e2, e3, e4, hd _ e4]
   · simp [Linked, stamped, hpre]
   · simp
   · simp [save]
@@ -138,7 +138,11 @@ theorem rep_save_first (m : List Bytes) (dummy g : Group) (hid : IdOK g.id) (hpr
     have h2 : ([] : Bytes) ≠ hkey 0 := fun e => hkey_ne_nil _ e.symm
     have h3 : ([] : Bytes) ≠ curKey := by decide
     have h4 : ([] : Bytes) ≠ g.id := fun e => hid.1 e.symm
-    simp [h1, h2, h3, h4, hnil]
+    simp [h1, h2, h3, h4, hd _ h4]
+
+theorem rep_save_first (m : List Bytes) (dummy g : Group) (hid : IdOK g.id) (hpre : g.pre = []) :
+    Rep [stamped 0 g] (save { disk := [], count := 0, last := dummy, mirror := m } g) :=
+  rep_save_first' [] m dummy g hid hpre (fun _ _ => rfl)
 
 theorem rep_foldl_save : ∀ (gs : List Group) (l : List Group) (c : Chain), Rep l c →
     Linked c.last.id gs → (∀ g ∈ gs, IdOK g.id) → (l.map (·.id) ++ gs.map (·.id)).Nodup →
@@ -283,5 +287,52 @@ theorem rep_run (gen : List Group) : ∀ (ops : List Op) (l : List Group) (c : C
     refine ⟨c', l', ?_, r2, ?_⟩
     · simp [runOps, h1, h2]
     · rw [hh, specStep_head l c op r.ne]
+
+/-! ### further read paths -/
+
+theorem firstBelowWalk_eq_find (d : Store) (x : Nat) : ∀ (fuel : Nat) (g : Group),
+    firstBelowWalk d x fuel g = (iterWalk d fuel g).find? (fun g => decide (g.create ≤ x)) := by
+  intro fuel
+  induction fuel with
+  | zero => intro g; simp [firstBelowWalk, iterWalk]
+  | succ f ih =>
+    intro g
+    unfold firstBelowWalk iterWalk
+    by_cases hc : g.create ≤ x
+    · cases hp : getGroupById d g.pre <;> simp [hc]
+    · cases hp : getGroupById d g.pre with
+      | none => simp [hc]
+      | some p => simp [hc, ih p]
+
+/-- `getFirstGroupBelowHeight(x)` = the newest listed group created at or below `x`. -/
+theorem firstBelow_rep {l : List Group} {c : Chain} (r : Rep l c) (x : Nat) :
+    firstBelow c x = l.reverse.find? (fun g => decide (g.create ≤ x)) := by
+  unfold firstBelow
+  rw [firstBelowWalk_eq_find]
+  have := iterList_rep r
+  unfold iterList at this
+  rw [this]
+
+/-- `GetSyncGroupsById(id)` for the listed group at index `i`: the (at most five) groups after it. -/
+theorem syncById_rep {l : List Group} {c : Chain} (r : Rep l c) (i : Nat) (g : Group) (hg : l[i]? = some g)
+    (hb6 : l.length + 6 < lenBound) :
+    syncById c.disk g.id = ((l.drop (i + 1)).take 5).map some := by
+  have hm : g ∈ l := List.mem_of_getElem? hg
+  have hh : g.height = i := r.height i g hg
+  have hil : i < l.length := (List.getElem?_eq_some_iff.mp hg).1
+  have hb := r.bound
+  have hmod : (g.height + 1) % u64 = i + 1 := by
+    rw [hh]; unfold lenBound at hb; unfold u64; omega
+  unfold syncById
+  rw [r.byId hm]
+  show syncFrom c.disk ((g.height + 1) % u64) 5 = _
+  rw [hmod]
+  exact syncFrom_rep r 5 (i + 1) (by omega)
+
+theorem topHeight_rep {l : List Group} {c : Chain} (r : Rep l c) : topHeight c = l.length - 1 := by
+  unfold topHeight
+  have := r.pos
+  rw [r.count]
+  split <;> omega
 
 end Rangers.Model.GroupChain
